@@ -421,4 +421,12 @@ def main():
 
 
 if __name__ == "__main__":
-    sys.exit(main())
+    try:
+        rc = main()
+    except SystemExit:
+        raise
+    except BaseException as e:   # an internal error of the runner is never a verdict about the property
+        import traceback; traceback.print_exc()
+        print("INCONCLUSIVE internal error of the runner: %r" % (e,))
+        rc = 2
+    sys.exit(rc)
